@@ -78,7 +78,9 @@ def find(lst: list[dict], key: str, value: Any) -> dict | None:
         cmp = mappyfile.find(d["layers"], "name", "Layer2")
         assert cmp["name"] == "Layer2"
     """
-    return next((item for item in lst if item[key.lower()] == value), None)
+    key = key.lower()
+    # check for the key first - accessing a missing key creates it in a Mapfile dict
+    return next((item for item in lst if key in item and item[key] == value), None)
 
 
 def findall(lst: list[dict], key: str, value: Any) -> list[dict]:
@@ -136,7 +138,9 @@ def findall(lst: list[dict], key: str, value: Any) -> list[dict]:
         layers = mappyfile.findall(d["layers"], "group", "test")
         assert len(layers) == 2
     """
-    return [item for item in lst if item[key.lower()] and item[key.lower()] in value]
+    key = key.lower()
+    # check for the key first - accessing a missing key creates it in a Mapfile dict
+    return [item for item in lst if key in item and item[key] and item[key] in value]
 
 
 def findunique(lst, key):
